@@ -1,9 +1,172 @@
 (* Proofs about Model/Imports.v *)
 From TxV Require Import Core.Base Model.Imports.
 
+(* ------------------------------------------------------------------ dotted names *)
 Lemma rsplit1_nodot n : has_dot n = false -> rsplit1 n = None.
 Proof.
-  induction n as [|c n IH]; simpl; [reflexivity|].
-  intro H. apply orb_false_iff in H as [Hc Hn]. rewrite (IH Hn).
-  unfold DOT in *. rewrite N.eqb_sym. rewrite Hc. reflexivity.
+  induction n as [|c n IH]; cbn [has_dot existsb rsplit1]; [reflexivity|].
+  intro H. apply orb_false_iff in H as [Hc Hn]. fold (has_dot n) in Hn. rewrite (IH Hn).
+  rewrite N.eqb_sym in Hc. rewrite Hc. reflexivity.
 Qed.
+
+Lemma rsplit1_some_dot s p l : rsplit1 s = Some (p, l) -> has_dot s = true.
+Proof.
+  revert p l; induction s as [|c s IH]; cbn [has_dot existsb rsplit1]; intros p l H; [discriminate|].
+  destruct (rsplit1 s) as [[p' l']|] eqn:E.
+  - fold (has_dot s). rewrite (IH _ _ eq_refl). apply orb_true_r.
+  - destruct (N.eqb c DOT) eqn:Ec; [|discriminate]. rewrite N.eqb_sym, Ec. reflexivity.
+Qed.
+
+Lemma rsplit1_qualified q n : has_dot n = false -> rsplit1 (q ++ DOT :: n) = Some (q, n).
+Proof.
+  intro Hn. induction q as [|c q IH]; cbn [app rsplit1].
+  - rewrite (rsplit1_nodot _ Hn). rewrite N.eqb_refl. reflexivity.
+  - rewrite IH. reflexivity.
+Qed.
+
+(* ------------------------------------------------------------------ association lists *)
+Section AssocLemmas.
+  Context {A : Type}.
+  Implicit Types l : list (list N * A).
+
+  Lemma aget_aset_same k v l : aget k (aset k v l) = Some v.
+  Proof.
+    induction l as [|[k' v'] l IH]; cbn [aset aget].
+    - rewrite str_eqb_refl. reflexivity.
+    - destruct (str_eqb k k') eqn:E; cbn [aget]; [rewrite str_eqb_refl; reflexivity|].
+      rewrite E. exact IH.
+  Qed.
+
+  Lemma aget_aset_other k k' v l : k' <> k -> aget k' (aset k v l) = aget k' l.
+  Proof.
+    intro Hne. induction l as [|[k2 v2] l IH]; cbn [aset aget].
+    - apply str_eqb_neq in Hne. rewrite Hne. reflexivity.
+    - destruct (str_eqb k k2) eqn:E; cbn [aget].
+      + apply str_eqb_eq in E. subst k2. apply str_eqb_neq in Hne. rewrite Hne. reflexivity.
+      + rewrite IH. reflexivity.
+  Qed.
+
+  Lemma aget_aset_some k k' v l : aget k' l <> None -> aget k' (aset k v l) <> None.
+  Proof.
+    intro H. destruct (str_eqb k' k) eqn:E.
+    - apply str_eqb_eq in E. subst. rewrite aget_aset_same. discriminate.
+    - apply str_eqb_neq in E. rewrite aget_aset_other by exact E. exact H.
+  Qed.
+
+  Lemma aget_aupd_same k f l : aget k (aupd k f l) = option_map f (aget k l).
+  Proof.
+    induction l as [|[k' v'] l IH]; cbn [aupd aget]; [reflexivity|].
+    destruct (str_eqb k k') eqn:E; cbn [aget]; rewrite E; [reflexivity | exact IH].
+  Qed.
+
+  Lemma aget_aupd_other k k' f l : k' <> k -> aget k' (aupd k f l) = aget k' l.
+  Proof.
+    intro Hne. induction l as [|[k2 v2] l IH]; cbn [aupd aget]; [reflexivity|].
+    destruct (str_eqb k k2) eqn:E; cbn [aget]; [| rewrite IH; reflexivity].
+    apply str_eqb_eq in E. subst k2. apply str_eqb_neq in Hne. rewrite Hne. reflexivity.
+  Qed.
+
+  Lemma akeys_aupd k f l : akeys (aupd k f l) = akeys l.
+  Proof.
+    induction l as [|[k' v'] l IH]; cbn [aupd akeys map]; [reflexivity|].
+    destruct (str_eqb k k'); cbn [map fst]; [reflexivity|]. f_equal. exact IH.
+  Qed.
+
+  Lemma aget_app k l l' : aget k (l ++ l') = match aget k l with Some v => Some v | None => aget k l' end.
+  Proof.
+    induction l as [|[k' v'] l IH]; cbn [app aget]; [reflexivity|].
+    destruct (str_eqb k k'); [reflexivity | exact IH].
+  Qed.
+
+  Lemma aget_none_keys k l : aget k l = None <-> ~ In k (akeys l).
+  Proof.
+    induction l as [|[k' v'] l IH]; cbn [aget akeys map In fst].
+    - split; [intros _ H; exact H | reflexivity].
+    - destruct (str_eqb k k') eqn:E.
+      + apply str_eqb_eq in E. subst. split; [discriminate | intro H; exfalso; apply H; left; reflexivity].
+      + apply str_eqb_neq in E. rewrite IH. unfold akeys. split.
+        * intros H [H1|H1]; [apply E; symmetry; exact H1 | exact (H H1)].
+        * intros H H1. apply H. right. exact H1.
+  Qed.
+End AssocLemmas.
+
+(* ------------------------------------------------------------------ __getitem__ *)
+Lemma first_def_some s nss name c :
+  first_def s nss name = Some c <->
+  exists pre i post, nss = pre ++ i :: post /\ (forall j, In j pre -> lookup_in s j name = None)
+                     /\ lookup_in s i name = Some c.
+Proof.
+  induction nss as [|n r IH]; cbn [first_def].
+  - split; [discriminate|]. intros (pre & i & post & H & _). destruct pre; discriminate.
+  - destruct (lookup_in s n name) as [c'|] eqn:E.
+    + split.
+      * intro H. exists [], n, r. split; [reflexivity|]. split; [intros j []|]. congruence.
+      * intros (pre & i & post & H & Hpre & Hi). destruct pre as [|p pre]; cbn [app] in H; inversion H; subst.
+        -- congruence.
+        -- rewrite (Hpre p (or_introl eq_refl)) in E. discriminate.
+    + rewrite IH. split.
+      * intros (pre & i & post & H & Hpre & Hi). exists (n :: pre), i, post. subst r.
+        split; [reflexivity|]. split; [|exact Hi]. intros j [Hj|Hj]; [subst; exact E | apply Hpre; exact Hj].
+      * intros (pre & i & post & H & Hpre & Hi). destruct pre as [|p pre]; cbn [app] in H; inversion H; subst.
+        -- congruence.
+        -- exists pre, i, post. split; [reflexivity|]. split; [|exact Hi]. intros j Hj. apply Hpre. right. exact Hj.
+Qed.
+
+Lemma first_def_none s nss name :
+  first_def s nss name = None <-> forall j, In j nss -> lookup_in s j name = None.
+Proof.
+  induction nss as [|n r IH]; cbn [first_def].
+  - split; [intros _ j [] | reflexivity].
+  - destruct (lookup_in s n name) eqn:E.
+    + split; [discriminate|]. intro H. rewrite (H n (or_introl eq_refl)) in E. discriminate.
+    + rewrite IH. split.
+      * intros H j [Hj|Hj]; [subst; exact E | apply H; exact Hj].
+      * intros H j Hj. apply H. right. exact Hj.
+Qed.
+
+(* An unqualified name: the rule of the current namespace if it has one, otherwise the first
+   namespace of the current namespace's import list (in order) that has it. *)
+Lemma lookup_unqualified s cur name c : has_dot name = false ->
+  (lookup s cur name = Some c <->
+   lookup_in s cur name = Some c \/
+   (lookup_in s cur name = None /\
+    exists pre i post, imports_of s cur = pre ++ i :: post
+                       /\ (forall j, In j pre -> lookup_in s j name = None)
+                       /\ lookup_in s i name = Some c)).
+Proof.
+  intro Hd. unfold lookup. rewrite (rsplit1_nodot _ Hd).
+  destruct (lookup_in s cur name) as [c'|] eqn:E.
+  - split; [intro H; left; exact H | intros [H|[H _]]; [exact H | discriminate]].
+  - rewrite first_def_some. split; [intro H; right; split; [reflexivity | exact H] | intros [H|[_ H]]; [discriminate | exact H]].
+Qed.
+
+Lemma lookup_unqualified_none s cur name : has_dot name = false ->
+  (lookup s cur name = None <->
+   lookup_in s cur name = None /\ forall j, In j (imports_of s cur) -> lookup_in s j name = None).
+Proof.
+  intro Hd. unfold lookup. rewrite (rsplit1_nodot _ Hd).
+  destruct (lookup_in s cur name) as [c'|] eqn:E.
+  - split; [discriminate | intros [H _]; discriminate].
+  - rewrite first_def_none. split; [intro H; split; [reflexivity | exact H] | intros [_ H]; exact H].
+Qed.
+
+(* A qualified name selects the named namespace's rule, whatever the current namespace and
+   its imports are. *)
+Lemma lookup_qualified s cur q n : has_dot n = false -> lookup s cur (q ++ DOT :: n) = lookup_in s q n.
+Proof. intro Hd. unfold lookup. rewrite (rsplit1_qualified _ _ Hd). reflexivity. Qed.
+
+(* ------------------------------------------------------------------ the cyclic-import defect *)
+Lemma cycle_silent_wrong :
+  serr (load_main ex_silent [97]%N) = None /\
+  exists l, In l (links (load_main ex_silent [97]%N)) /\ l_ns l = [98]%N /\ l_name l = [88]%N /\
+            option_map cls_key (l_target l) = Some ([99], [88])%N /\
+            spec_resolve ex_silent (l_ns l) (l_name l) = Some ([97], [88])%N.
+Proof.
+  split; [vm_compute; reflexivity|].
+  eexists. split; [vm_compute; left; reflexivity|]. vm_compute. repeat split; reflexivity.
+Qed.
+
+Lemma cycle_unexisting_fails :
+  serr (load_main ex_unexisting [97]%N) = Some (EUnexisting [98] [[88]])%N /\
+  spec_resolve ex_unexisting [98]%N [88]%N = Some ([97], [88])%N.
+Proof. split; vm_compute; reflexivity. Qed.
